@@ -246,9 +246,21 @@ fn distinct_codes(rng: &mut Rng, k: usize, style: usize) -> Vec<f64> {
             rng.perm(k).into_iter().map(|v| (b + v) as f64).collect()
         }
         _ => {
+            // a quarter of the sets: an arithmetic progression with a power-of-two stride (codes that coincide modulo
+            // 2^j, or under a bit mask that is one bit too narrow)
+            if rng.bool(0.25) {
+                let stride = 1usize << rng.us(1, 12);
+                let span = stride * (k.max(1) - 1);
+                if span < 65536 {
+                    let base = rng.below(65536 - span);
+                    let mut v: Vec<f64> = (0..k).map(|i| (base + i * stride) as f64).collect();
+                    rng.shuffle(&mut v);
+                    return v;
+                }
+            }
             let mut v: Vec<u32> = Vec::new();
             while v.len() < k {
-                let x = if rng.bool(0.2) { *rng.pick(&SPECIAL_CODES) } else if rng.bool(0.5) { rng.below(12) as u32 } else { rng.below(65536) as u32 };
+                let x = if rng.bool(0.2) { *rng.pick(&SPECIAL_CODES) } else if rng.bool(0.3) { rng.below(12) as u32 } else if rng.bool(0.4) { rng.below(256) as u32 } else { rng.below(65536) as u32 };
                 if !v.contains(&x) {
                     v.push(x);
                 }
